@@ -32,6 +32,7 @@ ADDR = {'stm32': STM32, 'nrf51': NRF51}
 NAME = {STM32: 'stm32', NRF51: 'nrf51'}
 FRAME_MAX_DATA = 31          # "header plus at most 31 bytes"
 RETRY_BOUND = 16             # "a bounded number of times": generous fixed bound (the code uses 6)
+NODE_BUDGET = 400000         # per worker job; never reached on the unchanged tree (largest job ~25k)
 MAX_PACKETS_FACTOR = 8       # runaway guard on the total number of uplink packets
 
 # environment letters for one flash-write attempt (one WRITE_FLASH command received/lost)
@@ -650,11 +651,19 @@ def _explore(p, base, letters, max_dev, root=(), tmpdir=None):
     """Stateless DFS over environment patterns: a child extends its parent's pattern at a position the
     parent's execution actually reached (so every distinct reachable pattern is run exactly once)."""
     stack = [tuple(root)]
+    runs = 0
     while stack:
         pat = stack.pop()
         case = dict(base)
         case['pat'] = list(pat)
+        before = p.viol_count
         obs, _ = do_case(p, case, tmpdir)
+        runs += 1
+        if p.viol_count != before:
+            continue                      # a violating execution is reported, not deepened
+        if runs >= NODE_BUDGET:
+            p.cap('pattern tree job stopped after %d executions' % NODE_BUDGET)
+            break
         n_att = obs['attempts']
         devs = sum(1 for x in pat if x != OK)
         if max_dev is not None and devs >= max_dev:
@@ -710,8 +719,11 @@ def _frontier(ck, base, letters, want):
         pat = open_.popleft()
         case = dict(base)
         case['pat'] = list(pat)
+        before = ck.viol_count
         obs, _ = do_case(ck, case)
         done += 1
+        if ck.viol_count != before:
+            continue
         for i in range(len(pat), obs['attempts']):
             for L in letters:
                 open_.append(pat + (OK,) * (i - len(pat)) + (L,))
